@@ -129,6 +129,7 @@ func runGuard(in input, c *hx.Case) {
 		ans = ansTerm(ips, lerr)
 		nips = len(ips)
 	}
+	setPhase(in.Phase) // the stub answers the guard's look-up like it answered the harness's
 	obs := gresOf(daisen2.VerifGuardLLMURL(in.URL))
 	c.Obs = map[string]any{"allow": allow, "guard": obs, "resolved": nips}
 	c.Coq = hx.App("CGuard", hx.B(allow), optPurl(u, perr), ans, obs)
@@ -173,6 +174,7 @@ func runDial(in input, c *hx.Case) {
 		split = hx.Some(hx.T(hx.Str(host), hx.Str(port)))
 		ips, lerr = lookup(host)
 	}
+	setPhase(in.Phase) // the stub answers the dialer's look-up like it answered the harness's
 	ctx, cancel := context.WithTimeout(context.Background(), 120*time.Millisecond)
 	conn, err := daisen2.VerifGuardedDialContext(ctx, "tcp", in.Addr)
 	cancel()
@@ -314,7 +316,7 @@ func runE2E(in input, c *hx.Case) {
 	var derr error
 	if perr == nil && (u.Scheme == "http" || u.Scheme == "https") {
 		// also when the check refused: a redirect or a later call would drive the client the same way
-		ctx, cancel := context.WithTimeout(context.Background(), 1500*time.Millisecond)
+		ctx, cancel := context.WithTimeout(context.Background(), 700*time.Millisecond)
 		req, rerr := http.NewRequestWithContext(ctx, "GET", raw, nil)
 		if rerr == nil {
 			resp, err := daisen2.VerifGuardedLLMClient().Do(req)
@@ -327,11 +329,18 @@ func runE2E(in input, c *hx.Case) {
 		}
 		cancel()
 	}
+	// resolutions of the name by the client beyond the single vetted one (0 for IP literals)
+	extra := 0
+	if perr == nil {
+		if n := lookupsOf(u.Hostname()); n > 1 {
+			extra = n - 1
+		}
+	}
 	setPhase(0)
 	daisen2.VerifGuardedLLMClient().CloseIdleConnections()
 	got := atomic.LoadInt64(&hits) - before
-	c.Obs = map[string]any{"allow": allow, "hits": got, "guard": fmt.Sprint(gerr), "do": fmt.Sprint(derr)}
-	c.Coq = hx.App("CEndToEnd", hx.B(allow), optPurl(u, perr), ans0, ans1, ans2, hx.N(uint64(got)))
+	c.Obs = map[string]any{"allow": allow, "hits": got, "extra_lookups": extra, "guard": fmt.Sprint(gerr), "do": fmt.Sprint(derr)}
+	c.Coq = hx.App("CEndToEnd", hx.B(allow), optPurl(u, perr), ans0, ans1, ans2, hx.N(uint64(got)), hx.N(uint64(extra)))
 	c.Tags = append(c.Tags, fmt.Sprintf("e2e:hits%d", got))
 	c.Nontrivial = true
 }
